@@ -791,7 +791,8 @@ func (r *ruleState) specTask(req *ReqRec, cands []cand, taus []int64) {
 		for _, tr := range req.Txs {
 			if tr.Committed && tr.Pre != nil {
 				a, b := tr.Pre.Tasks[q.Id], tr.Post.Tasks[q.Id]
-				if a != nil && b != nil && a.State != 4 && b.State == 4 {
+				// (a claim that rewrites a row that was already claimed is a claim too: it is judged below)
+				if a != nil && b != nil && b.State == 4 && (a.State != 4 || !a.Eq(b)) {
 					claimed = tr
 				}
 			}
